@@ -75,6 +75,12 @@ impl Monitor for NoEffectMonitor {
                     None
                 }
             }
+            Step::HSetLen { slot, n } if *n >= engine::UNREPRESENTABLE_LEN => {
+                // refused with InvalidInput ("no compound file can hold that"): like any
+                // other refusal it must leave the store and the handle alone - also the
+                // handle's unwritten changes
+                sess.hm.get(*slot).and_then(|h| h.as_ref()).map(|h| format!("set_len | refuse:unrepresentable_length{}", if h.dirty { "+dirty_buffer" } else { "" }))
+            }
             Step::HSeek { slot, from } => {
                 if let Some(Some(h)) = sess.hm.get(*slot) {
                     let len = sess.model.get(&h.names).map(|n| n.data.len() as i128).unwrap_or(0);
@@ -669,6 +675,8 @@ pub struct MetaMonitor {
     expect_ok: bool,
     /// drives the occasional failed first attempt of a setter
     rng: Rng,
+    /// a verdict reached in `before` (reported by `after`)
+    pending: Option<Fail>,
 }
 
 impl Monitor for MetaMonitor {
@@ -713,6 +721,21 @@ impl Monitor for MetaMonitor {
                 sess.shared.arm(vec![crate::backend::Fault { kinds: crate::backend::K_WRITE | crate::backend::K_SEEK, k, err: std::io::ErrorKind::Other, sticky: false, partial: false }]);
                 let r = engine::exec_api_on(sess.cf(), other.as_ref().unwrap_or(op));
                 sess.shared.disarm();
+                if r.is_err() {
+                    // whichever value the failed call left behind, lookups and the stored
+                    // bytes must tell the same story (the one-shot fault let nothing through)
+                    if let Ok(e) = sess.cf().entry(&path) {
+                        let live = engine::view_of(&e);
+                        if let Ok(d) = engine::dump_bytes(&sess.shared.bytes(), Mode::Permissive) {
+                            if let Some((stored, _)) = d.iter().find(|(v, _)| v.path == live.path) {
+                                rep.count("failed_setter_live_vs_stored_checked");
+                                if (stored.state, stored.clsid, stored.ctime, stored.mtime) != (live.state, live.clsid, live.ctime, live.mtime) {
+                                    self.pending = Some(("failed setter | lookups and the stored file disagree".to_string(), format!("{:?} failed (one underlying call refused); entry({path}) now shows state {:#x} clsid {:02x?} created {:?} modified {:?}, the stored bytes reopen with state {:#x} clsid {:02x?} created {:?} modified {:?}", other.as_ref().unwrap_or(op), live.state, live.clsid, live.ctime, live.mtime, stored.state, stored.clsid, stored.ctime, stored.mtime)));
+                                }
+                            }
+                        }
+                    }
+                }
                 if other.is_some() {
                     // adopt what the live object shows now
                     if let Ok(e) = sess.cf().entry(&path) {
@@ -732,6 +755,9 @@ impl Monitor for MetaMonitor {
         }
     }
     fn after(&mut self, sess: &mut Session, step: &Step, rep: &mut Report) -> Result<(), Fail> {
+        if let Some(f) = self.pending.take() {
+            return Err(f);
+        }
         // wall-clock window of a new storage / touch: floor100ns(before) <= t <= after
         if !self.expect_ok {
             return Ok(());
@@ -837,7 +863,7 @@ pub fn run_c17(ctx: &Ctx, rep: &mut Report) {
         cfg.reopen_pct = 3;
         cfg.soft_max_objects = *rng.pick(&[10, 40, 80]);
         cfg.max_size = 700;
-        let mut mon = MetaMonitor { checked: 0, expect_ok: false, rng: Rng::derive(ctx.seed, &[17, 0xFA17, ctx.shard, case]) };
+        let mut mon = MetaMonitor { checked: 0, expect_ok: false, rng: Rng::derive(ctx.seed, &[17, 0xFA17, ctx.shard, case]), pending: None };
         // a fifth of the histories start from another writer's file whose free directory
         // slots still carry the metadata of deleted objects: new objects that reuse such a
         // slot must report their own defaults
